@@ -477,6 +477,33 @@ func genCase(rng *rand.Rand, n int, seed int64, pf Profile) *CaseDesc {
 		}
 		c.InvOut = uniq(c.InvOut)
 	}
+	// a returned type that invoke does not take: its returner sometimes carries ConsumptionOptional for OTHER types
+	// (as many as it has results, or more): the unreceived value must still make Bind fail
+	for _, t := range pending {
+		if contains(c.InvOut, t) || !chance(rng, 0.5) {
+			continue
+		}
+		for i := len(c.Provs) - 1; i >= 0; i-- {
+			p := c.Provs[i]
+			rets := p.Out
+			if p.Kind == "inj" && i != len(c.Provs)-1 {
+				rets = nil
+				if contains(p.Out, cTE) {
+					rets = []int{cError}
+				}
+			}
+			if p.Kind == "lit" || !contains(rets, t) {
+				continue
+			}
+			for k := 0; k < len(rets)+rng.Intn(2); k++ {
+				x := pick(rng, append(cloneInts(plain), cError))
+				if !contains(rets, x) {
+					p.ConsOpt = uniq(append(p.ConsOpt, x))
+				}
+			}
+			break
+		}
+	}
 	rng.Shuffle(len(c.InvOut), func(i, j int) { c.InvOut[i], c.InvOut[j] = c.InvOut[j], c.InvOut[i] })
 	if c.HasInit {
 		if chance(rng, 0.5) && len(staticAvail) > 0 {
